@@ -32,8 +32,7 @@ VERIFY_REQS = [
          'cover': ['self.challenge', 'self.Abar', 'self.Bbar', 'self.D', 'self.e_cap', 'self.r1_cap', 'self.r3_cap', 'self.m_cap',
                    'pk', 'disclosed_messages', 'disclosed_indexes', 'len(disclosed_indexes)', 'header', 'ph', 'len(ph)',
                    'a:API_ID', 'a:H2S', 'a:P1']},
-        {'id': 'pairing', 'what': 'pairing check depends on Abar, Bbar, pk', 'gate_callee': ['is_identity', 'PartialEq'],
-         'in_fn': ['core_proof_verify'], 'cover': ['self.Abar', 'self.Bbar', 'pk'], 'pure': ['self.Abar', 'self.Bbar', 'pk']},
+        {'id': 'pairing', 'what': 'pairing check depends on Abar, Bbar, pk', 'gate_callee': ['is_identity', 'PartialEq'], 'cover': ['self.Abar', 'self.Bbar', 'pk'], 'pure': ['self.Abar', 'self.Bbar', 'pk']},
         {'id': 'index-range', 'what': 'each disclosed index is compared with U + R', 'alts': INDEX_RANGE_ALTS,
          'cover': ['disclosed_indexes', 'len(self.m_cap)', 'len(disclosed_indexes)']},
         {'id': 'count', 'what': 'len(disclosed messages) == len(disclosed indexes)', 'gate_op': ['Ne', 'Eq'],
@@ -45,20 +44,19 @@ VERIFY_REQS = [
          'cover': ['self.challenge', 'self.Abar', 'self.Bbar', 'self.D', 'self.e_cap', 'self.r1_cap', 'self.r3_cap', 'self.m_cap',
                    'pk', 'disclosed_messages', 'disclosed_committed_messages', 'disclosed_indexes', 'disclosed_commitment_indexes',
                    'L', 'header', 'ph', 'a:API_ID_BLIND', 'c:b"BLIND_"', 'a:H2S']},
-        {'id': 'pairing', 'what': 'pairing check depends on Abar, Bbar, pk', 'gate_callee': ['is_identity', 'PartialEq'],
-         'in_fn': ['core_proof_verify'], 'cover': ['self.Abar', 'self.Bbar', 'pk'], 'pure': ['self.Abar', 'self.Bbar', 'pk']},
+        {'id': 'pairing', 'what': 'pairing check depends on Abar, Bbar, pk', 'gate_callee': ['is_identity', 'PartialEq'], 'cover': ['self.Abar', 'self.Bbar', 'pk'], 'pure': ['self.Abar', 'self.Bbar', 'pk']},
         {'id': 'index-range', 'what': 'each (translated) disclosed index is compared with U + R', 'alts': INDEX_RANGE_ALTS,
          'cover': ['disclosed_indexes', 'disclosed_commitment_indexes', 'L', 'len(self.m_cap)']},
     ]),
     (BSIG + 'blind_sign', [
         {'id': 'commit-proof', 'what': 'signing is gated by the commitment-proof challenge equality (over the commitment, its proof, the blind generators, the blind api id)',
-         'gate_callee': ['PartialEq'], 'in_fn': ['core_commit_verify'],
+         'gate_callee': ['PartialEq'],
          'cover': ['commitment_with_proof', 'a:API_ID_BLIND', 'c:b"BLIND_"', 'a:H2S'],
          'exempt': {'gate_callee': ['is_empty'], 'cover': ['commitment_with_proof'], 'truth': True}},
     ]),
     (COM + 'deserialize_and_validate_commit', [
         {'id': 'commit-proof', 'what': 'a non-empty commitment is returned only after the challenge equality',
-         'gate_callee': ['PartialEq'], 'in_fn': ['core_commit_verify'],
+         'gate_callee': ['PartialEq'],
          'cover': ['commitment_with_proof', 'blind_generators', 'api_id'],
          'exempt': {'gate_callee': ['is_empty'], 'cover': ['commitment_with_proof'], 'truth': True}},
     ]),
